@@ -47,8 +47,13 @@ pub fn replay(path: &str) -> ! {
                 extra.push("--replay".into());
                 extra.push(serde_json::to_string(&doc["case"]).unwrap());
             }
+            let layout_copy = layout.clone();
             let out = run_corpus(&rc, &cfg, &[(0, layout)], "r", &extra, None);
             if let Some((_, msgs)) = out.uncompilable.first() {
+                if !rules::layout_verdict(&layout_copy).is_valid() {
+                    // an invalid declaration (e.g. an overhang probe) that is now rejected: the defect is gone
+                    passes(&prop, path);
+                }
                 still_fails(&prop, path, &format!("declaration does not compile: {:?}", msgs));
             }
             if doc["case"].is_null() {
